@@ -8,8 +8,8 @@ backward: every derive input of the repository, recorded through the hook (raw n
 import core
 import streams
 
-CPFORM = {"A": "A", "B": "B", "Q": "m::q::Q", "G": "G<u8, V>", "T": "(i32, V)"}
-ERRFORM = {"E1": "Er", "E2": "m::Er2", "EG": "Eg<i32>"}
+CPFORM = {"A": "A", "B": "B", "Q": "m::q::Q", "G": "G<u8, V>", "T": "(i32, V)", "QG": "m::q::H<u8, V>"}
+ERRFORM = {"E1": "Er", "E2": "m::Er2", "EG": "Eg<i32>", "EQG": "m::Eh<i32>"}
 LEVEL = "model_checking"
 
 
